@@ -7,7 +7,8 @@
    makes.  [run_fault k e t p]: call number k of p fails with an OSError
    carrying errno e (a failing write leaves [trunc data], an arbitrary prefix);
    [run_cut k t p]: the process stops at call k (an interrupted write leaves
-   [trunc data]).  Both are defined for every k; when k is beyond the trace
+   [trunc data]).  A store is: makedirs, is_file(other form), [unlink(other
+   form)], open, write, close - for ANY MIME type of the store.  Both are defined for every k; when k is beyond the trace
    nothing happens. *)
 From Coq Require Import NArith ZArith List Bool Lia.
 From NGS Require Import Val Ints StFS StFSProofs StFileAccessor StFileAccessorProofs
@@ -51,35 +52,36 @@ Print Assumptions C18_read_fault_leaves_tree.
    OTHER name's file exactly as it was *)
 Theorem C18_store_fault_others_unchanged :
   forall (B : Type) (plain : list N -> B) (gz : N -> list N -> B) (trunc : B -> B),
-  forall c ex U,
+  forall c U,
   cleanb (base c) = true ->
   (forall n, In n U -> n <> [] /\ cleanb n = true /\ gzfree n = true) ->
   (forall n m, In n U -> In m U -> prefix n m -> n = m) ->
-  forall n buf mime ow, In n U -> exempt mime = ex n ->
-  forall t m k e, Inv B plain gz c ex U t m ->
+  forall n buf mime ow, In n U ->
+  forall fm t m k e, Inv B plain gz c U fm t m ->
   forall s, In s U -> s <> n ->
-  lookup B (snd (run_fault B (plain []) trunc k e t (store_prog B plain gz c n buf mime ow))) (phys c ex s)
-  = lookup B t (phys c ex s).
+  lookup B (snd (run_fault B (plain []) trunc k e t (store_prog B plain gz c n buf mime ow))) (phys c fm s)
+  = lookup B t (phys c fm s).
 Proof. exact store_fault_others. Qed.
 Print Assumptions C18_store_fault_others_unchanged.
 
 (* interruption at ANY call of a store: the other names' files are untouched *)
 Theorem C18_crash_others_unchanged :
   forall (B : Type) (plain : list N -> B) (gz : N -> list N -> B) (trunc : B -> B),
-  forall c ex U,
+  forall c U,
   cleanb (base c) = true ->
   (forall n, In n U -> n <> [] /\ cleanb n = true /\ gzfree n = true) ->
   (forall n m, In n U -> In m U -> prefix n m -> n = m) ->
-  forall n buf mime ow, In n U -> exempt mime = ex n ->
-  forall t m k, Inv B plain gz c ex U t m ->
+  forall n buf mime ow, In n U ->
+  forall fm t m k, Inv B plain gz c U fm t m ->
   forall s, In s U -> s <> n ->
-  lookup B (run_cut B (plain []) trunc k t (store_prog B plain gz c n buf mime ow)) (phys c ex s)
-  = lookup B t (phys c ex s).
+  lookup B (run_cut B (plain []) trunc k t (store_prog B plain gz c n buf mime ow)) (phys c fm s)
+  = lookup B t (phys c fm s).
 Proof. exact store_cut_others. Qed.
 Print Assumptions C18_crash_others_unchanged.
 
 (* ... and a reader of the interrupted name finds: the previous state (old
-   bytes, or absent); or a PREFIX of the new bytes (the whole of them when the
+   bytes, or absent); nothing (a data-access error: the name is absent after
+   an interruption between the unlink of its other form and the write); or a PREFIX of the new bytes (the whole of them when the
    write completed) - for uncompressed files a truncated file is returned
    as-is and detecting it is the decoder's job (length check); or a
    data-access error (a truncated or corrupt .gz is reported as
@@ -90,15 +92,15 @@ Print Assumptions C18_crash_others_unchanged.
 Theorem C18_crash_safe :
   forall (B : Type) (plain : list N -> B) (gz : N -> list N -> B) (gunzip : B -> gzres) (trunc : B -> B),
   (forall l b, gunzip (gz l b) = GzOk b) ->
-  forall c ex U,
+  forall c U,
   cleanb (base c) = true ->
   (forall n, In n U -> n <> [] /\ cleanb n = true /\ gzfree n = true) ->
   (forall n m, In n U -> In m U -> prefix n m -> n = m) ->
-  forall n buf mime ow, In n U -> exempt mime = ex n ->
+  forall n buf mime ow, In n U ->
   (forall b, exists pre suf, trunc (plain b) = plain pre /\ b = pre ++ suf) ->
   (forall l b x, gunzip (trunc (gz l b)) = GzOk x -> x = b \/ x = []) ->
   gunzip (plain []) = GzOk [] ->
-  forall t m k, Inv B plain gz c ex U t m ->
+  forall fm t m k, Inv B plain gz c U fm t m ->
   crash_ok B plain buf (to_model B plain (spec_fetch m n))
            (fst (run B (plain []) (run_cut B (plain []) trunc k t (store_prog B plain gz c n buf mime ow))
                      (fetch_prog B plain gunzip c n))).
@@ -109,15 +111,15 @@ Print Assumptions C18_crash_safe.
 Theorem C18_failed_store_reader :
   forall (B : Type) (plain : list N -> B) (gz : N -> list N -> B) (gunzip : B -> gzres) (trunc : B -> B),
   (forall l b, gunzip (gz l b) = GzOk b) ->
-  forall c ex U,
+  forall c U,
   cleanb (base c) = true ->
   (forall n, In n U -> n <> [] /\ cleanb n = true /\ gzfree n = true) ->
   (forall n m, In n U -> In m U -> prefix n m -> n = m) ->
-  forall n buf mime ow, In n U -> exempt mime = ex n ->
+  forall n buf mime ow, In n U ->
   (forall b, exists pre suf, trunc (plain b) = plain pre /\ b = pre ++ suf) ->
   (forall l b x, gunzip (trunc (gz l b)) = GzOk x -> x = b \/ x = []) ->
   gunzip (plain []) = GzOk [] ->
-  forall t m k e, Inv B plain gz c ex U t m ->
+  forall fm t m k e, Inv B plain gz c U fm t m ->
   crash_ok B plain buf (to_model B plain (spec_fetch m n))
            (fst (run B (plain []) (snd (run_fault B (plain []) trunc k e t (store_prog B plain gz c n buf mime ow)))
                      (fetch_prog B plain gunzip c n))).
@@ -141,7 +143,7 @@ Print Assumptions C18_http_fault_to_error.
 Theorem C18_overwrite_not_atomic_refuted :
   let t1 := snd (run blob (BPlain []) g_tree (g_store false [1] false)) in
   g_fetch false t1 = Ok (VData (BPlain [1])) /\
-  let '(r, t2) := run_fault blob (BPlain []) (BCut 0) 2 ENOSPC t1 (g_store false [2; 3] true) in
+  let '(r, t2) := run_fault blob (BPlain []) (BCut 0) 3 ENOSPC t1 (g_store false [2; 3] true) in
   r = AccessErr /\ g_fetch false t2 = Ok (VData (BCut 0 (BPlain [2; 3]))).
 Proof. exact overwrite_not_atomic_refuted. Qed.
 Print Assumptions C18_overwrite_not_atomic_refuted.
@@ -149,15 +151,25 @@ Print Assumptions C18_overwrite_not_atomic_refuted.
 (* a .gz left truncated by a failed write: the next fetch reports a
    data-access error *)
 Theorem C18_truncated_gz_detected :
-  let '(r, t2) := run_fault blob (BPlain []) (BCut 2) 2 ENOSPC g_tree (g_store true [2; 3] false) in
+  let '(r, t2) := run_fault blob (BPlain []) (BCut 2) 3 ENOSPC g_tree (g_store true [2; 3] false) in
   r = AccessErr /\ g_fetch true t2 = AccessErr.
 Proof. exact truncated_gz_detected. Qed.
 Print Assumptions C18_truncated_gz_detected.
 
+(* an interruption between the unlink of the other form and the open leaves
+   the name absent (and the completed store reads back the new bytes) *)
+Theorem C18_unlink_then_cut_absent :
+  let t1 := snd (run blob (BPlain []) g_tree (fa_store_file blob BPlain BGz (g_cfg true) g_name [1] mime_jpeg false)) in
+  g_fetch true t1 = Ok (VData (BPlain [1])) /\
+  g_fetch true (run_cut blob (BPlain []) (BCut 0) 3 t1 (g_store true [2; 3] true)) = AccessErr /\
+  g_fetch true (snd (run blob (BPlain []) t1 (g_store true [2; 3] true))) = Ok (VData (BPlain [2; 3])).
+Proof. exact unlink_then_cut_absent. Qed.
+Print Assumptions C18_unlink_then_cut_absent.
+
 (* a zero-length .gz reads back as empty data (covered by crash_ok's prefix
    clause; detection is the decoder's length check) *)
 Theorem C18_empty_gz_reads_empty :
-  g_fetch true (run_cut blob (BPlain []) (BCut 0) 2 g_tree (g_store true [2; 3] false))
+  g_fetch true (run_cut blob (BPlain []) (BCut 0) 3 g_tree (g_store true [2; 3] false))
   = Ok (VData (BPlain [])).
 Proof. exact empty_gz_refuted. Qed.
 Print Assumptions C18_empty_gz_reads_empty.
